@@ -36,6 +36,7 @@ TARGETS = {
     "mt": (["vfz.c", "vk.c", "vsched.c", "t_mt.c"], WRAPS_VK + WRAPS_SCHED, "asan", []),
     "sig": (["vfz.c", "vk.c", "vsched.c", "t_sig.c"], WRAPS_VK + WRAPS_SCHED, "asan", []),
     "ino": (["vfz.c", "vk.c", "vlock.c", "t_ino.c"], WRAPS_VK + WRAPS_LOCK, "asan", []),
+    "hyg": (["vfz.c", "t_hyg.c"], [], "asan", []),
     "popen": (["vfz.c", "vk.c", "vlock.c", "t_popen.c"], WRAPS_VK + WRAPS_LOCK + ["fork", "wait4", "kill"], "asan", []),
     "wait": (["vfz.c", "vk.c", "vsched.c", "t_wait.c"], WRAPS_VK + WRAPS_SCHED + ["fork", "wait4", "kill"], "asan", []),
 }
@@ -154,6 +155,17 @@ ENV_BASE["UBSAN_OPTIONS"] = "print_stacktrace=1:halt_on_error=1"
 ENV_BASE["ASAN_SYMBOLIZER_PATH"] = shutil.which("llvm-symbolizer") or shutil.which("llvm-symbolizer-14") or ""
 
 
+# per-target environment overrides (LeakSanitizer is needed by the hygiene target only)
+TARGET_ENV = {"hyg": {"ASAN_OPTIONS": ENV_BASE["ASAN_OPTIONS"].replace("detect_leaks=0", "detect_leaks=1:leak_check_at_exit=0")}}
+
+
+def env_for(exe):
+    t = os.path.basename(exe)[2:]
+    if t in TARGET_ENV:
+        e = dict(ENV_BASE); e.update(TARGET_ENV[t]); return e
+    return ENV_BASE
+
+
 def parse_res(out):
     m = re.search(r"^RES v=(\S+) prop=(\S*) tag=(\S+) labels=([0-9a-f]+) hash=([0-9a-f]+) nt=(\d) c=(\S+) used=(\d+) msg=(.*)$", out, re.M)
     if not m:
@@ -190,7 +202,7 @@ def run_case(exe, casefile, params=(), verbose=False, timeout=120):
     # the case runs in its own session so that such helpers can be killed afterwards
     import tempfile, signal as _sig
     with tempfile.TemporaryFile() as fo, tempfile.TemporaryFile() as fe:
-        p = subprocess.Popen(cmd, stdout=fo, stderr=fe, env=ENV_BASE, start_new_session=True)
+        p = subprocess.Popen(cmd, stdout=fo, stderr=fe, env=env_for(exe), start_new_session=True)
         timed_out = False
         try:
             p.wait(timeout=timeout)
@@ -356,7 +368,7 @@ def run_batch(exe, seed, total, params, outdir, nworkers=NCPU, label="b"):
         for f in glob.glob(pre + ".*"):
             os.unlink(f)
         cmd = [exe, "batch", str(seed), str(w), str(per), str(nworkers), pre] + list(params)
-        procs.append((pre, subprocess.Popen(cmd, stdout=subprocess.PIPE, stderr=subprocess.PIPE, env=ENV_BASE)))
+        procs.append((pre, subprocess.Popen(cmd, stdout=subprocess.PIPE, stderr=subprocess.PIPE, env=env_for(exe))))
     summ = dict(evals=0, ok=0, viol=0, crash=0, inc=0, nt=0, labels=[0] * 64, c=[0] * 16)
     fails = []
     hashes = set()
